@@ -100,7 +100,7 @@ def gen_spec(rnd: random.Random, stratum: str):
     nchild = rnd.randint(1, 3)
     for i in range(nchild):
         parent = rnd.choice([v["name"] for v in vars_ if v.get("dist")])
-        vars_.append({"name": names[i], "prefix": rnd.choice([[], [], [4], [2]]),
+        vars_.append({"name": names[i], "prefix": rnd.choice([[], [], [4], [2]]) if not scalar_tree else [],
                       "dist": {"family": "normal", "loc": via(parent), "scale": scale(False) if scalar_tree else scale(True),
                                "kw": rnd.random() < 0.6, "per_obs": per_obs()}})
     if rnd.random() < 0.4:
@@ -310,7 +310,8 @@ def run(spec, ops, skip, seed, twin=True):
     state = {}
     try:
         for n, st in model.state.items():
-            state[n] = {"shape": list(np.shape(st.value)), "outdated": bool(st.outdated)}
+            if st.value is not None:          # transient nodes store no value
+                state[n] = {"shape": list(np.shape(st.value)), "outdated": bool(st.outdated)}
     except Exception as ex:
         uerr = uerr or repr(ex)[:300]
     c = {"tfd": True, "spec": spec, "ops": ops, "skip": list(skip), "seed": seed, "auto": auto,
@@ -346,6 +347,28 @@ def check(c):
     drawn = [d["var"] for d in c["draws"]]
     if sorted(drawn) != sorted(sel):
         return f"drawn variables {drawn}, non-skipped distributed variables {sel} {where}"
+    try:                      # rows for the Coq-side shape check, also when a later clause fails
+        fresh0, _ = build(spec, c["post_vars"])
+        rows0 = []
+        for d in c["draws"]:
+            fd = fresh0.nodes[d["var"] + "_log_prob"].init_dist()
+            rows0.append({"var": d["var"], "vs": list(np.shape(np.asarray(c["entry"][d["var"]]))),
+                          "b": [int(x) for x in fd.batch_shape], "e": [int(x) for x in fd.event_shape],
+                          "obs": d["sample_shape"], "final": list(np.shape(np.asarray(c["post_vars"][d["var"]])))})
+        c["shape_rows"] = rows0
+        lrows = []
+        for v in dv:
+            nm = v["name"] + "_log_prob"
+            vs = list(np.shape(np.asarray(c["post_vars"][v["name"]])))
+            e = [int(x) for x in fresh0.nodes[nm].init_dist().event_shape]
+            for phase in ("post", "upd"):
+                o = c[phase].get(nm)
+                if o and o["shape"] is not None and (phase == "upd" or not o["outdated"]):
+                    lrows.append({"node": nm, "phase": phase, "per_obs": bool(v["dist"]["per_obs"]), "vs": vs, "e": e, "obs": o["shape"]})
+        c["lp_rows"] = lrows
+    except Exception:
+        c["shape_rows"] = []
+        c["lp_rows"] = []
     # shapes relative to the values current at the call
     for n, v0 in c["entry"].items():
         s0, s1 = np.shape(np.asarray(v0)), np.shape(np.asarray(c["post_vars"][n]))
@@ -354,7 +377,6 @@ def check(c):
     # from-scratch rebuild at the drawn values
     fresh, _ = build(spec, c["post_vars"])
     keys = jax.random.split(jax.random.PRNGKey(c["seed"]), len(sel)) if sel else []
-    rows = []
     for i, d in enumerate(c["draws"]):
         n = d["var"]
         if np.asarray(keys[i]).tolist() != d["seed"]:
@@ -363,7 +385,6 @@ def check(c):
         vs = list(np.shape(np.asarray(c["entry"][n])))
         b, e = [int(x) for x in fd.batch_shape], [int(x) for x in fd.event_shape]
         want = vs[:len(vs) - len(b) - len(e)] if len(vs) >= len(b) + len(e) else None
-        rows.append({"var": n, "vs": vs, "b": b, "e": e, "obs": d["sample_shape"], "final": list(np.shape(np.asarray(c["post_vars"][n])))})
         if want is None:
             continue
         if d["sample_shape"] != want:
@@ -373,7 +394,6 @@ def check(c):
         if not _close(exp, c["post_vars"][n]):
             return (f"variable {n} is not the draw of its distribution evaluated at the newly drawn values of its ancestors "
                     f"(seed #{i}): holds {np.asarray(c['post_vars'][n]).ravel()[:4]}..., expected {exp.ravel()[:4]}... {where}")
-    c["shape_rows"] = rows
     for v in spec["vars"]:
         n = v["name"]
         if n not in drawn and not _close(c["entry"][n], c["post_vars"][n]):
